@@ -62,6 +62,15 @@ def gen_signal(st, n):
 
 
 def gen_snr(st, n, vals):
+    spec, exp, text = _gen_snr(st, n, vals)
+    if spec["snr"] is not None and st.coin(1, 4, "std-given-as-well"):
+        # "the given std when NO snr is given": next to an snr, a std argument must not matter
+        spec["std"] = st.pick((0.5, 2.0, 10.0, 0.0, 1.0), "ignored-std")
+        text += f", std={spec['std']} given as well"
+    return spec, exp, text
+
+
+def _gen_snr(st, n, vals):
     mode = st.weighted((3, 3, 2, 2, 2), "snr-mode")  # scalar dB, scalar linear, per-sample dB, per-sample linear, std
     a = np.asarray(vals, dtype=float)
     sp = float(np.mean(a ** 2))
@@ -85,7 +94,10 @@ def gen_snr(st, n, vals):
         form = st.pick(("list", "array"), "snr-form")
         return {"snr": s if form == "list" else np.array(s), "db": db}, exp, f"per-sample snr ({'dB' if db else 'linear'}, {form})"
     std = st.pick((1.0, 0.1, 2.5, 0.0), "std")
-    return {"snr": None, "std": std}, np.full(n, std), f"std={std}"
+    spec = {"snr": None, "std": std}
+    if st.coin(1, 4, "scale-flag-given-as-well"):
+        spec["db"] = False               # without an snr the decibel/linear flag must not matter either
+    return spec, np.full(n, std), f"std={std}" + (", snr_in_db=False given as well" if "db" in spec else "")
 
 
 def call_noise(via, signal, spec, x=None):
